@@ -2,6 +2,7 @@ package core
 
 import (
 	"cmp"
+	"regexp"
 	"sort"
 )
 
@@ -99,12 +100,14 @@ func MonAdd(k string, d int64) int64 {
 }
 
 // Problem records an oracle complaint about the current execution.
+var addrRE = regexp.MustCompile(`0xc[0-9a-f]{6,}`)
+
 func Problem(format string, a ...any) {
 	s := S
 	if s == nil || s.aborting.Load() {
 		return
 	}
-	msg := sprintf(format, a...)
+	msg := addrRE.ReplaceAllString(sprintf(format, a...), "0x…") // heap addresses differ from run to run: a complaint must replay verbatim
 	s.x.Problems = append(s.x.Problems, msg)
 	s.logf("PROBLEM %s", msg)
 }
@@ -156,3 +159,10 @@ func RangeKeys[M ~map[K]V, K cmp.Ordered, V any](m M) []K {
 	}
 	return keys
 }
+
+// NoFinalizer stands in for runtime.SetFinalizer in the rewritten sources: the finalizer is never
+// run (an execution Go permits), so nothing happens behind the scheduler's back.
+func NoFinalizer(obj, finalizer any) int { return 0 }
+
+// Scratch returns a fresh object for the neutralised runtime.SetFinalizer(Scratch(…), nil) call.
+func Scratch(int) *int { return new(int) }
